@@ -213,6 +213,36 @@ fn nt_c16_disabled(h: &Hist) -> bool {
     apis.len() >= 3
 }
 
+fn o_c13(h: &Hist) -> Vec<Viol> {
+    oracle::c13(&Index::new(h), "C13", false)
+}
+fn o_c13_sched(h: &Hist) -> Vec<Viol> {
+    oracle::c13(&Index::new(h), "C13", true)
+}
+fn o_c14(h: &Hist) -> Vec<Viol> {
+    oracle::c13(&Index::new(h), "C14", false)
+}
+fn o_c14_sched(h: &Hist) -> Vec<Viol> {
+    oracle::c13(&Index::new(h), "C14", true)
+}
+
+fn nt_c13(h: &Hist) -> bool {
+    h.adapters.iter().any(|a| {
+        let mig = a.polls.windows(2).any(|w| w[0].vt != w[1].vt);
+        let dropped_early = a.dropped_t.is_some() && a.done_t.is_none() && !a.polls.is_empty();
+        let entries: HashSet<String> = a.polls.iter().map(|p| format!("{:?}", p.entry)).collect();
+        let finishing_records = a.polls.iter().any(|p| p.finishing && p.scope.map_or(false, |sc| h.locals.iter().any(|l| l.scope == sc)));
+        (a.polls.len() >= 2 && mig) || dropped_early || (a.polls.len() >= 3 && entries.len() >= 2) || finishing_records
+    }) || h.labels.contains_key("nested_poll")
+}
+
+fn nt_c13_sched(h: &Hist) -> bool {
+    // a collector step inside the completing call
+    h.adapters.iter().any(|a| {
+        a.polls.iter().any(|p| p.finishing && h.hooks.iter().any(|e| e.t > p.t.0 && e.t < p.t.1 && matches!(e.kind, HookKind::BeforeDrain { .. } | HookKind::Received { .. })))
+    }) || (nt_c13(h) && h.cycles.iter().any(|c| c.interleaved > 0))
+}
+
 fn o_c03(h: &Hist) -> Vec<Viol> {
     oracle::c03(&Index::new(h), "C03")
 }
@@ -845,6 +875,59 @@ pub fn spec(id: &str, variant: &str, cancelable: bool, thorough: bool) -> Option
             nontrivial: nt_c07,
             rule: "call sequences with ring-fill episodes (full command queue) under the hooked scheduler, incl. re-entrant closures; every operation must complete within its own steps (an operation that needed another vthread would deadlock the scheduler); non-trivial = a fill episode or a re-entrant closure occurred",
         },
+        ("C13", v_) | ("C14", v_) => {
+            let c13 = id == "C13";
+            let sched = v_ == "sched";
+            let kinds = if c13 {
+                vec![AdapterKind::InSpan, AdapterKind::InSpan, AdapterKind::EnterOnPoll, AdapterKind::InSpanEnterOnPoll]
+            } else {
+                vec![AdapterKind::Stream, AdapterKind::Sink]
+            };
+            PropSpec {
+                id: if c13 { "C13" } else { "C14" },
+                profile: big(Profile {
+                    threads: (1, 3),
+                    ops: (0, if sched { 12 } else { 22 }),
+                    cycles: (0, 5),
+                    sched_len: (0, if sched { 40 } else { 24 }),
+                    adapter_kinds: kinds,
+                    ..base.clone().set(&[
+                        (K::Wrap, 12),
+                        (K::Drive, 30),
+                        (K::DropAdapter, 4),
+                        (K::Root, 12),
+                        (K::Child, 8),
+                        (K::MultiChild, 2),
+                        (K::Noop, 1),
+                        (K::SetLocalParent, 6),
+                        (K::EnterLocal, 5),
+                        (K::PopGuard, 8),
+                        (K::Finish, 5),
+                        (K::Flush, if sched { 2 } else { 6 }),
+                        (K::ChildOfLocal, 2),
+                    ])
+                }),
+                opts: ExecOpts {
+                    auto_probe: true,
+                    brackets: true,
+                    exclude: vec!["dup_unit_attach"],
+                    ..if sched { ExecOpts::new(Mode::Sched) } else { api.clone() }
+                },
+                oracle: if c13 {
+                    if sched { o_c13_sched } else { o_c13 }
+                } else if sched {
+                    o_c14_sched
+                } else {
+                    o_c14
+                },
+                nontrivial: if sched { nt_c13_sched } else { nt_c13 },
+                rule: if c13 {
+                    "scripted inner futures (generated list of polls, each a list of local-span/event/child-span/context/nested-poll actions ending Pending or Ready) wrapped by in_span(span) / enter_on_poll(name) / both, driven by explicit poll operations with a no-op waker from generated vthreads (migration), dropped before completion or kept alive after it, with flush() cycles (api) or collector steps inside the final poll (sched); non-trivial = >=2 polls with a vthread migration, or drop before completion, or a nested adapter poll, or (sched) a step of the collector inside the completing poll; distinct = hash of the executed model shape"
+                } else {
+                    "scripted inner streams and sinks wrapped by fastrace_futures in_span, arbitrary call sequences on poll_next / poll_ready / start_send / poll_flush / poll_close (incl. calls after the end), from any vthread, dropped at any point; non-trivial = >=3 calls on >=2 entry points or a completing call that records >=1 local span, or (sched) a collector step inside the completing call; distinct = hash of the executed model shape"
+                },
+            }
+        }
         ("C16", "disabled") => {
             let mut sp = spec("C16", "api", cancelable, thorough).unwrap();
             sp.oracle = o_c16_disabled;
